@@ -147,7 +147,7 @@ def run(tier):
         # concurrent requests whose acknowledgements arrive back to back (what the reader hands to a waiter must not be
         # shared with the next acknowledgement it parses)
         import c07_acks
-        asc = [{"id": "ab%d" % bi, "batch": b} for bi, b in enumerate(vlib.chunks(c07_acks.bursts(tier, rng), 6))]
+        asc = [{"id": "ab%d" % bi, "batch": b} for bi, b in enumerate(vlib.chunks(c07_acks.bursts(tier, rng) + c07_acks.abandoned(), 6))]
         for fam, lst, conc in (("wire", wsub, 1), ("retry", rsc, 2), ("acks", asc, 2)):
             for x in run_race(rbin, fam, lst, conc):
                 race_runs += 1
